@@ -29,6 +29,7 @@ import dns.name
 import dns.rdata
 import dns.rdataclass
 import dns.rdatatype
+import dns.renderer
 import dns.rrset
 import dns.tsig
 import dns.update
@@ -130,14 +131,15 @@ _installed = []
 def install():
     if _installed:
         return
-    _installed.append((dns.tsig.hmac, dns.message.time))
+    _installed.append((dns.tsig.hmac, dns.message.time, dns.renderer.time))
     dns.tsig.hmac = SHIM
     dns.message.time = CLOCK
+    dns.renderer.time = CLOCK
 
 
 def uninstall():
     if _installed:
-        dns.tsig.hmac, dns.message.time = _installed.pop()
+        dns.tsig.hmac, dns.message.time, dns.renderer.time = _installed.pop()
 
 
 # ------------------------------------------------------------------------------------------------
@@ -452,12 +454,10 @@ class SignRecord:
         self.calls = []
 
 
-def lib_sign(b, key, p, now, request_mac, tsig_ctx, multi):
-    """sign with the library; returns (wire, message, recorded sign call)"""
+def lib_sign(b, key, p, now, request_mac, tsig_ctx, multi, via="lib"):
+    """sign with the library; `via` = "lib": Message.use_tsig + to_wire, "renderer": dns.renderer.Renderer
+    .add_tsig / .add_multi_tsig (Renderer._write_tsig).  Returns (wire, next signing context, recorded sign call)"""
     m = mk_message(b)
-    m.use_tsig(key, fudge=p["fudge"], original_id=p.get("orig_id"), tsig_error=p.get("error", 0),
-               other_data=bytes.fromhex(p.get("other", "")))
-    m.request_mac = request_mac
     rec = []
     real_sign = dns.tsig.sign
 
@@ -471,13 +471,35 @@ def lib_sign(b, key, p, now, request_mac, tsig_ctx, multi):
     dns.tsig.sign = spy
     CLOCK.t = now
     n0 = len(SHIM.log)
+    other = bytes.fromhex(p.get("other", ""))
     try:
-        w = m.to_wire(multi=multi, tsig_ctx=tsig_ctx)
+        if via == "lib":
+            m.use_tsig(key, fudge=p["fudge"], original_id=p.get("orig_id"), tsig_error=p.get("error", 0), other_data=other)
+            m.request_mac = request_mac
+            w = m.to_wire(multi=multi, tsig_ctx=tsig_ctx)
+            ctx_out = m.tsig_ctx
+        else:
+            r = dns.renderer.Renderer(m.id, int(m.flags), 65535, m.origin)
+            for rrset in m.sections[0]:
+                r.add_question(rrset.name, rrset.rdtype, rrset.rdclass)
+            for sec in (1, 2, 3):
+                for rrset in m.sections[sec]:
+                    r.add_rrset(sec, rrset)
+            if m.opt is not None:
+                r.add_opt(m.opt)
+            r.write_header()
+            oid = p.get("orig_id") if p.get("orig_id") is not None else m.id
+            if multi:
+                ctx_out = r.add_multi_tsig(tsig_ctx, key.name, key, p["fudge"], oid, p.get("error", 0), other, request_mac, key.algorithm)
+            else:
+                r.add_tsig(key.name, key, p["fudge"], oid, p.get("error", 0), other, request_mac, key.algorithm)
+                ctx_out = None
+            w = r.get_wire()
     finally:
         dns.tsig.sign = real_sign
     if rec:
         rec[0]["log"] = SHIM.log[n0:]
-    return w, m, (rec[0] if rec else None)
+    return w, ctx_out, (rec[0] if rec else None)
 
 
 def lib_read(w, keyring, now, request_mac, tsig_ctx, multi):
@@ -637,9 +659,9 @@ def eval_msg(ctx, c, rep):
     p = c["tsig"]
     now = c["now"]
     rm = bytes.fromhex(c.get("request_mac", ""))
-    if c.get("signer", "lib") == "lib":
-        w, m, rec = lib_sign(c["body"], key, p, now, rm, None, False)
-        t = check_signed(ctx, c, rep, w, rec, key, p, now, rm, None, "to_wire")
+    if c.get("signer", "lib") in ("lib", "renderer"):
+        w, _, rec = lib_sign(c["body"], key, p, now, rm, None, False, via=c.get("signer", "lib"))
+        t = check_signed(ctx, c, rep, w, rec, key, p, now, rm, None, "to_wire" if c.get("signer", "lib") == "lib" else "Renderer.add_tsig")
         if t is None:
             return
     else:
@@ -697,7 +719,7 @@ def eval_reject(ctx, c, rep):
     now = c["now"]
     rm = bytes.fromhex(c.get("request_mac", ""))
     mut = c["mut"]
-    w, m, rec = lib_sign(c["body"], key, p, now, rm, None, False)
+    w, _, rec = lib_sign(c["body"], key, p, now, rm, None, False)
     t = ref_tsig(w)
     keyring, vnow, vrm = key, now, rm
     must_form = False
@@ -775,13 +797,12 @@ def eval_seq(ctx, c, rep):
     for idx, ev in enumerate(envs):
         b = ev["body"]
         if ev["signed"]:
-            if signer == "lib":
-                sctx_line = e_ctx(sctx)
-                w, m, rec = lib_sign(b, key, p, now + idx, rm, sctx, True)
-                t = check_signed(ctx, c, rep, w, rec, key, p, now + idx, rm, prior, f"to_wire(multi=True) envelope {idx}")
+            if signer in ("lib", "renderer"):
+                w, sctx, rec = lib_sign(b, key, p, now + idx, rm, sctx, True, via=signer)
+                t = check_signed(ctx, c, rep, w, rec, key, p, now + idx, rm, prior,
+                                 f"{'to_wire(multi=True)' if signer == 'lib' else 'Renderer.add_multi_tsig'} envelope {idx}")
                 if t is None:
                     return
-                sctx = m.tsig_ctx
                 mac = t["mac"]
             else:
                 body = mk_message(b).to_wire()
@@ -791,7 +812,7 @@ def eval_seq(ctx, c, rep):
             first = False
         else:
             w = mk_message(b).to_wire()
-            if signer == "lib":
+            if signer in ("lib", "renderer"):
                 sctx.update(w)  # what a server built on the library does for an unsigned envelope (RFC 8945 5.3.1)
             prior[1].append(w)
         wires.append(w)
@@ -1050,7 +1071,7 @@ def gen_msg(rng, flips, alg=None):
          "request_mac": rng.bytes(rng.choice([16, 20, 32, 64, 1])).hex() if rng.chance(1, 2) else "",
          "keyring": rng.choice(["key", "key", "dict-key", "dict-bytes"]),
          "deltas": sorted(set([0, rng.choice([f, -f]), rng.choice([f + 1, -f - 1])])),
-         "signer": "ref" if rng.chance(1, 5) else "lib"}
+         "signer": rng.choice(["lib", "lib", "lib", "ref", "renderer"])}
     if flips:
         c["flips"] = flips
     return c
@@ -1102,7 +1123,7 @@ def gen_seq(rng, flips_budget=0):
     p = {"fudge": rng.choice([300, 300, 5, 65535])}
     c = {"kind": "seq", "key": key, "tsig": p, "now": gen_now(rng) + 70000, "envs": envs,
          "request_mac": rng.bytes(rng.choice([16, 32, 64])).hex() if rng.chance(3, 4) else "",
-         "signer": rng.choice(["lib", "lib", "ref"])}
+         "signer": rng.choice(["lib", "lib", "ref", "renderer"])}
     if flips_budget:
         fl = []
         for _ in range(2):
